@@ -6,6 +6,7 @@ import (
 	"fmt"
 	"go/types"
 	"os"
+	"os/exec"
 	"path/filepath"
 	"sort"
 	"strings"
@@ -87,6 +88,8 @@ type RunResult struct {
 	LoadErrors    []string      `json:"load_errors,omitempty"`
 }
 
+var extContractPkgs = map[string]bool{}
+
 func main() {
 	flag.Parse()
 	initWork()
@@ -135,6 +138,33 @@ func realMain() int {
 		}
 		return nil
 	})
+	// contracts on dependencies: /verif/ext_contracts/<import path>/*.go are laid
+	// over the package directory in the module cache (nothing is written there)
+	extPkgs := map[string]bool{}
+	extRoot := filepath.Join(*flagVerif, "ext_contracts")
+	if _, err := os.Stat(extRoot); err == nil {
+		filepath.Walk(extRoot, func(p string, info os.FileInfo, err error) error {
+			if err != nil || info.IsDir() || !strings.HasSuffix(p, ".go") {
+				return nil
+			}
+			rel, _ := filepath.Rel(extRoot, filepath.Dir(p))
+			cmd := exec.Command("go", "list", "-f", "{{.Dir}}", rel)
+			cmd.Dir = *flagRepo
+			cmd.Env = append(os.Environ(), "GOFLAGS=-mod=mod", "GOPROXY=off", "GOSUMDB=off", "GOTOOLCHAIN=local")
+			out, err := cmd.Output()
+			dir := strings.TrimSpace(string(out))
+			if err != nil || dir == "" {
+				fmt.Fprintln(os.Stderr, "ext contract for a package outside the build list:", rel)
+				return nil
+			}
+			b, _ := os.ReadFile(p)
+			overlay[filepath.Join(dir, filepath.Base(p))] = b
+			extPkgs[rel] = true
+			res.Overlaid = append(res.Overlaid, "ext:"+rel)
+			return nil
+		})
+	}
+	extContractPkgs = extPkgs
 	if *flagOverlay != "" {
 		b, err := os.ReadFile(*flagOverlay)
 		if err == nil {
@@ -152,6 +182,11 @@ func realMain() int {
 		BuildFlags: []string{"-tags=verif"},
 		Overlay:    overlay,
 		Env:        append(os.Environ(), "GOFLAGS=-mod=mod", "GOPROXY=off", "GOSUMDB=off", "GOTOOLCHAIN=local"),
+	}
+	if len(extPkgs) > 0 {
+		// files laid over a module-cache directory are only seen when the go
+		// command lists that directory itself instead of using its module index
+		cfg.Env = append(cfg.Env, "GODEBUG=goindex=0")
 	}
 	pkgs, err := packages.Load(cfg, patterns...)
 	if err != nil {
